@@ -270,6 +270,29 @@ def run_torus(w, h, tier, acc, narrow=False):
                     if ks == 0 and kd == 0:
                         for v in sorted(vectors):
                             check_ldf(acc, v, s, w, h, case)
+            # the same chips named by coordinates several periods outside
+            # the canonical range
+            for (a, b, k) in ((-2, -2, 0), (3, 0, 0), (0, 2, 1), (-2, 1, -3)):
+                d3 = (d[0] + a * w + k, d[1] + b * h + k, k)
+                s3 = (s[0] - b * w, s[1] + a * h, 0)
+                acc.evaluations += 1
+                try:
+                    got = geometry.shortest_torus_path_length(s3, d3, w, h)
+                    v = geometry.shortest_torus_path(s3, d3, w, h)
+                    px, py = proj(v)
+                    if sum(abs(x) for x in v) != truth or \
+                            ((s[0] + px) % w, (s[1] + py) % h) != d:
+                        got = "path %r" % (v,)
+                except Exception as e:
+                    got = "%s: %s" % (type(e).__name__, e)
+                if got != truth:
+                    acc.violation(
+                        dict(kind="torus_far_representation"),
+                        dict(kind="torus", w=w, h=h, src=list(s3),
+                             dst=list(d3), fn="torus_length"),
+                        "shortest_torus_path(_length)(%r, %r, %d, %d) gives "
+                        "%r, BFS distance between those chips is %d"
+                        % (s3, d3, w, h, got, truth), size=w * h)
             if acc.evaluations % 50 == 0:
                 acc.sample(dict(w=w, h=h, src=s, dst=d, bfs_distance=truth))
     acc.sample(dict(w=w, h=h, pairs=len(chips) ** 2))
